@@ -189,6 +189,10 @@ def run(prog: Program, res: Result) -> None:  # noqa: PLR0912, PLR0915
     from checks.shared import check_cache_hit_environment
 
     check_cache_hit_environment(prog, res, "C09.R10")
+    res.rule("C09.R11", "whether a cached template is served does not depend on how it was loaded before: Template.is_up_to_date() treats anything but a real bool from uptodate() as stale - the coroutine an async-loaded template's uptodate returns to a sync caller is truthy, and would keep a modified file's old content alive (shared with C14.R3)")
+    from checks.shared import check_uptodate_is_bool
+
+    check_uptodate_is_bool(prog, res, "C09.R11")
 
     # ------------------------------------------------------------------ R3 fresh per-render state
     res.rule("C09.R3", "RenderContext.__init__ builds locals/counters/tag_namespace/loops from fresh literals; Template.render[_async] constructs a new RenderContext and buffer on every call; class-level containers handed to instances are never mutated")
